@@ -283,3 +283,8 @@ def run(repo: Repo, rep: Report, tier: str) -> None:
     okc = len(w_ctx) == 1 and len(loops) == 1 and isinstance(loops[0].target, ast.Tuple) and norm(loops[0].target.elts[0]) == norm(w_ctx[0].value) and any(x is w_ctx[0] for x in ast.walk(loops[0]))
     rep.check(okc, "id-origin", "dimse_messages.DIMSEMessage.decode_msg", f"context_id writers: {[norm(s_) for s_ in w_ctx]}", "the message's context id must be the one of the received PDV (first element of the PDV tuple), set in one place", mod=msgs, node=w_ctx[0] if w_ctx else dmf)
     rep.extra["trigger_sites"] = [f"{s}.{qualname(c)}:{en}" for s, m, c, en in sites]
+    # ---- state is per instance -------------------------------------------------------------------
+    from ..lints import per_instance_state
+    rep.rule("per-instance-state", "mutable state of the protocol objects is created per instance, never as a class attribute")
+    per_instance_state(repo, rep, "per-instance-state", {"association": ("Association",), "dimse": ("DIMSEServiceProvider",), "dimse_messages": ("DIMSEMessage",)})
+
